@@ -15,6 +15,7 @@
  */
 #include "drv_util.h"
 #include <errno.h>
+#include <sys/uio.h>
 #include <math.h>
 #include <stddef.h>
 #include "types.h"
@@ -207,6 +208,26 @@ static int str_convert(MPT_INTERFACE(convertable) *c, MPT_TYPE(type) type, void 
 }
 static const MPT_INTERFACE_VPTR(convertable) str_ctl = { str_convert };
 
+/* convertable that offers a counted character vector (a slice: iov_len need not be the length up to the NUL) */
+struct vec_conv {
+	MPT_INTERFACE(convertable) _conv;
+	const char *txt;
+	size_t len;
+};
+static int vec_convert(MPT_INTERFACE(convertable) *c, MPT_TYPE(type) type, void *dest)
+{
+	struct vec_conv *s = (struct vec_conv *) c;
+	if (!type) {
+		static const uint8_t fmt[] = { MPT_type_toVector('c'), 0 };
+		if (dest) *((const uint8_t **) dest) = fmt;
+		return MPT_type_toVector('c');
+	}
+	if (type != MPT_type_toVector('c')) return MPT_ERROR(BadType);
+	if (dest) { ((struct iovec *) dest)->iov_base = (void *) s->txt; ((struct iovec *) dest)->iov_len = s->len; }
+	return MPT_type_toVector('c');
+}
+static const MPT_INTERFACE_VPTR(convertable) vec_ctl = { vec_convert };
+
 /* convertable that has exactly one type and no value */
 struct none_conv {
 	MPT_INTERFACE(convertable) _conv;
@@ -349,6 +370,28 @@ int main(void)
 			if (drv_parse_nat(drv_w[2], &n) || n < 1 || n > 4) { puts("bad-op"); continue; }
 			fail_pending = n;
 			result("ok", 0, 0);
+		}
+		else if (!strcmp(op, "setvec") && drv_nw == 6) {
+			/* a counted character vector: the first <n> characters of the text (the text goes on behind them) */
+			struct obj *ob = parse_obj(drv_w[2]);
+			char *name = parse_name(drv_w[3]);
+			uint8_t *dat = 0; size_t dlen = 0, n = 0; int isnull = 0, ret;
+			struct vec_conv vc;
+			char *val;
+			if (!ob || !name || !*name || drv_parse_data(drv_w[4], &dat, &dlen, &isnull) || isnull || memchr(dat, 0, dlen)
+			    || drv_parse_nat(drv_w[5], &n) || n > dlen) {
+				puts("bad-op"); free(name); free(dat); continue;
+			}
+			val = malloc(dlen + 1);
+			memcpy(val, dat, dlen); val[dlen] = 0;
+			vc._conv._vptr = &vec_ctl;
+			vc.txt = val;
+			vc.len = n;
+			fail_arm();
+			ret = kind_set(ob->kind, ob->data, name, &vc._conv);
+			fail_disarm();
+			free(val); free(dat); free(name);
+			result(ret < 0 ? "refused" : "ok", ob, ret);
 		}
 		else if (!strcmp(op, "sets") && drv_nw == 5) {
 			struct obj *ob = parse_obj(drv_w[2]);
